@@ -109,7 +109,8 @@ def check_close_path(eng, run, registry, fn: FunctionInfo, tracked=None, rule="C
     if not tracked:
         return None
     an = CloseAnalysis(eng, tracked, registry, own_flags=own_closing_flags(fn), is_cm=is_cm, late=late)
-    an.exempt_sync_before_await = exits == "exc" and fn.is_async
+    # (no exemption for failures before the first await: a function that takes a transport over owns it from its first statement -
+    # finding F9, wrap() creating the SSL object before the try block that closes the transport)
     it = Interp(an, fn)
     out = it.run()
     run.count("atoms_walked", it.atoms_walked)
@@ -329,6 +330,10 @@ def check_connector_cancel(eng, run):
     # completed send leaves nothing behind, so a close (even one that is then cancelled) frees the descriptor on the next iteration
     from rules import c20
     c20.check_zero(eng, RuleAlias(run, "C14.own"))
+    # every close path that takes the send lock needs the lock to be handed on: a waiter queue that is trimmed by position instead of
+    # by identity strands the lock after a cancelled waiter, and aclose() then waits for ever with the transport open
+    from rules import c12
+    c12.check_fifo(eng, RuleAlias(run, "C14.own"))
 
 
 def check_twice(eng, run, registry):
